@@ -95,36 +95,67 @@ def scaleOfSuffix (sfx : String) : Option TS :=
   | "GPS" => some .GPST | "GAL" => some .GST | "BDS" => some .BDT | "QZSS" => some .QZSST
   | s => TS.ofString? s
 
-/-- (prefix, scale) pairs the property lists for the numeric forms (JD in ET/TDB excluded) -/
-def numericAccepted (pfx : String) (ts : TS) : Bool :=
-  match pfx with
-  | "JD" => ts == .TAI || ts == .UTC
-  | "MJD" => ts == .TAI || ts == .UTC || ts == .GPST || ts == .GST || ts == .BDT
-  | "SEC" => ts != .QZSST
-  | _ => false
+/-- the pairs the property REQUIRES ("the JD, MJD and SEC numeric forms in the uniform time scales and UTC"):
+    each of the three prefixes with TAI, TT, GPST, GST, BDT, QZSST and UTC, the scale written with its
+    Display name.  Other pairs (ET/TDB, the RINEX spellings GPS GAL BDS QZSS) are judged when accepted -/
+def numericRequired (sfx : String) (ts : TS) : Bool :=
+  sfx == ts.name && (ts.isUniform || ts == .UTC)
 
 /-- spec side: surrounding ASCII blanks do not matter -/
 def stripBlanks (cs : List Nat) : List Nat := ((cs.dropWhile (· == 32)).reverse.dropWhile (· == 32)).reverse
 
+/-- second = 60: valid iff the fields minus the written offset are 23:59 of a leap-second day.  In UTC the
+    text denotes the instant INSIDE the inserted second (the library's UTC count has no value for it:
+    recorded finding D9b when it is read as `:59.f`); in the other scales it must give the count of 23:59:59.f,
+    as the constructors do (C08).  Every other `:60` must be an error. -/
+def judgeSecond60 (impl : Impl) (padded : Bool) (form : Form) (date : Date) (h mi : Int) (nd : Nat) (frac : Int)
+    (neg : Bool) (oh om : Int) (ts : TS) : String × String :=
+  let scale := form.scaleOf ts.name
+  let off := offsetMin form neg oh om
+  if leapLabelOwn iersLeapDates date h mi off then
+    match impl with
+    | .ok [r] =>
+      (match parseEp? r with
+       | some r =>
+         if scale = "UTC" then
+           (verdict [("scale", r.ts.name == scale), ("canonical", scanon r.dur),
+                     ("denoted_instant", instant Hifi.Drive.Epoch.iersTbl "UTC" (sval r.dur) ==
+                        some (denotedLeapInstant Hifi.Drive.Epoch.iersTbl date h mi off nd frac))],
+            if sval r.dur == lastLabelNs date h mi off nd frac then "D9b" else "-")
+         else
+           (verdict [("scale", r.ts.name == scale), ("canonical", scanon r.dur),
+                     ("count_of_23_59_59", sval r.dur == lastLabelNs date h mi off nd frac - refOffsetNs scale)], "-")
+       | none => ("FAIL:decode", "-"))
+    | .ok _ => ("FAIL:decode", "-")
+    | .other "err" => if padded then ("ok", "-") else ("FAIL:rejected_valid", "-")
+    | .other w => ("FAIL:" ++ w, "-")
+  else
+    match impl with
+    | .other "err" => ("ok", "-")
+    | .ok _ => ("FAIL:accepted_invalid_second_60", "-")
+    | .other w => ("FAIL:" ++ w, "-")
+
 def judgeParse (impl : Impl) (codes : List Nat) (form : Form) (f : List Int) (nd : Nat) (frac : Int) (neg : Bool)
-    (oh om : Int) (ts : TS) : String :=
+    (oh om : Int) (ts : TS) : String × String :=
   match f with
   | [y, mo, d, h, mi, s] =>
     let date : Date := ⟨y, mo, d⟩
     -- a text padded with blanks denotes what its core denotes; for padded texts an error is accepted as well
     -- ("value or error, never another instant")
-    if renderText form date h mi s nd frac neg oh om ts.name ≠ stripBlanks codes then "FAIL:generator_text_differs_from_spec_render"
-    else if !(inGrammar date h mi s nd frac oh om) then "na"
+    if renderText form date h mi s nd frac neg oh om ts.name ≠ stripBlanks codes then ("FAIL:generator_text_differs_from_spec_render", "-")
+    else if s = 60 ∧ inGrammar60 date h mi nd frac oh om then
+      judgeSecond60 impl (stripBlanks codes ≠ codes) form date h mi nd frac neg oh om ts
+    else if !(inGrammar date h mi s nd frac oh om) then ("na", "-")
     else match impl with
       | .ok [r] =>
         (match parseEp? r with
-         | some r => verdict [("scale", r.ts.name == form.scaleOf ts.name), ("canonical", scanon r.dur),
-                              ("denoted_instant", sval r.dur == denoted form ts.name date h mi s nd frac neg oh om)]
-         | none => "FAIL:decode")
-      | .ok _ => "FAIL:decode"
-      | .other "err" => if stripBlanks codes ≠ codes then "ok" else "FAIL:rejected_valid"
-      | .other w => "FAIL:" ++ w
-  | _ => "FAIL:decode"
+         | some r => (verdict [("scale", r.ts.name == form.scaleOf ts.name), ("canonical", scanon r.dur),
+                              ("denoted_instant", sval r.dur == denoted form ts.name date h mi s nd frac neg oh om)], "-")
+         | none => ("FAIL:decode", "-"))
+      | .ok _ => ("FAIL:decode", "-")
+      | .other "err" => if stripBlanks codes ≠ codes then ("ok", "-") else ("FAIL:rejected_valid", "-")
+      | .other w => ("FAIL:" ++ w, "-")
+  | _ => ("FAIL:decode", "-")
 
 
 /-- C13: never a panic or a hang; well-formed text with an out-of-range field must be an error -/
@@ -136,7 +167,7 @@ def judgeTotal (impl : Impl) (codes : List Nat) (stamp : Bool) : String × Strin
     if !stamp then ("ok", "-") else
     match readStamp (stripBlanks codes) with
     | some (date, h, mi, s, rest) =>
-      if wellFormedTail rest && mustReject iersLeapDates date h mi s 0 then
+      if wellFormedTail rest && stampMustReject iersLeapDates date h mi s rest then
         ("FAIL:accepted_out_of_range_fields", if Cal.d10class date.y date.m date.d then "D10" else "-")
       else ("ok", "-")
     | none => ("ok", "-")
@@ -145,7 +176,7 @@ def stampTag (codes : List Nat) : String :=
   match readStamp (stripBlanks codes) with
   | some (date, h, mi, s, rest) =>
     if !(wellFormedTail rest) then "stamp+junk"
-    else if mustReject iersLeapDates date h mi s 0 then "wellformed:out_of_range"
+    else if stampMustReject iersLeapDates date h mi s rest then "wellformed:out_of_range"
     else "wellformed:in_range"
   | none =>
     if startsWith (Txt.trim codes) [74, 68] || startsWith (Txt.trim codes) [77, 74, 68] || startsWith (Txt.trim codes) [83, 69, 67]
@@ -211,11 +242,13 @@ def handle (op : String) (args : List String) (impl : Impl) : Option Ans :=
     let m : Res Ep := match payload with
       | some p => if op == "gregparse" then fromGregorianStrIdx p else epochFromStrIdx p
       | none => .err
-    let sp := match payload with
+    let (sp, cls) := match payload with
       | some p => judgeParse impl p form f nd frac neg oh om ts
-      | none => "FAIL:decode"
-    pure { model := showResEp m, spec := sp,
+      | none => ("FAIL:decode", "-")
+    let s60 : Bool := match f with | [_, _, _, _, _, sec] => sec == 60 | _ => false
+    pure { model := showResEp m, spec := sp, cls := cls,
            branch := op ++ ":" ++ (toString (repr form)).replace "Hifi.Spec.Form." "" ++ ":nd" ++ toString nd ++
+             (if s60 then ":s60:" ++ ts.name ++ (match m with | .ok _ => ":ok" | _ => ":err") else "") ++
              (if form == .O || form == .OT then (if neg then ":neg" else ":pos") ++ (if oh ≥ 10 then ":hh>=10" else ":hh<10") else "") }
   | "nparse", [hex, pfx, dechex, sfx] => do
     let codes ← codesOfHex hex
@@ -224,7 +257,6 @@ def handle (op : String) (args : List String) (impl : Impl) : Option Ans :=
     let m := epochFromStrIdx codes
     let sp :=
       if renderNumeric pfx dec 1 sfx ≠ codes ∧ renderNumeric pfx dec 2 sfx ≠ codes then "FAIL:generator_text_differs_from_spec_render"
-      else if !(numericAccepted pfx ts) then "na"
       else match readDecimal dec, impl with
         | some (sg, mant, ex), .ok [r] =>
           (match parseEp? r with
@@ -233,9 +265,11 @@ def handle (op : String) (args : List String) (impl : Impl) : Option Ans :=
            | none => "FAIL:decode")
         | none, _ => "FAIL:decode"
         | _, .ok _ => "FAIL:decode"
-        | _, .other "err" => "FAIL:rejected_valid"
+        | _, .other "err" => if numericRequired sfx ts then "FAIL:rejected_valid" else "na"
         | _, .other w => "FAIL:" ++ w
-    pure { model := showResEp m, spec := sp, branch := "nparse:" ++ pfx ++ ":" ++ sfx }
+    let isErr : Bool := match m with | .err => true | _ => false
+    pure { model := showResEp m, spec := sp,
+           branch := "nparse:" ++ pfx ++ ":" ++ sfx ++ (if isErr then ":err" else ":ok") }
   -- ---------------------------------------------------------------- C13E: totality stream
   | "p_epoch", [hex] | "p_greg", [hex] => do
     let codes ← codesOfHex hex
